@@ -730,7 +730,11 @@ def _nonce_tail_xor_form(rep, facts, a, rt, base_idx, seq_idx, rule):
     -> True / False once the shape is recognised (every obligation reported), None for another shape"""
     from ..tyutil import array_len
     fn = a.body.key
-    if rt[0] != 'mem' or rt[4] or len(rt[3]) != 1 or rt[3][0][2][0] not in ('store?', 'store'):
+    if rt[0] != 'mem' or rt[4] or len(rt[3]) != 1:
+        return None
+    w0 = rt[3][0]
+    via_call = w0[2][0] in ('call', 'call?') and w0[2][1] == 'core::ops::BitXorAssign::bitxor_assign' and len(w0[2][2]) == 2
+    if w0[2][0] not in ('store?', 'store') and not via_call:
         return None
     l_out, init = rt[1], rt[2]
     inner = init[3][0] if init[0] == 'agg' and init[1] == 'adt' and len(init[3]) == 1 else init
@@ -740,10 +744,18 @@ def _nonce_tail_xor_form(rep, facts, a, rt, base_idx, seq_idx, rule):
         return None
     ssite = rt[3][0][0]
     st = a.stmt_at(ssite)
-    if not (st.get('k') == 'assign' and st['rv'].get('k') == 'binop' and st['rv'].get('op') == 'BitXor' and st['place']['p'] == ['deref']):
-        return None
-    v = a.val_rv(st['rv'], ssite)
-    pth_d, nx = _payload_path(a.val_local(st['place']['l'], ssite))
+    if via_call:
+        # `*n ^= s` through the operator trait: <u8 as BitXorAssign<_>>::bitxor_assign(n, s) with n the element handed out by
+        # iter_mut and s the other element (by reference or by value)
+        d_arg, s_arg = w0[2][2]
+        pth_d, nx = _payload_path(d_arg)
+        s_t = s_arg[1] if (s_arg[0] == 'load' and not s_arg[2]) else s_arg
+        v = ('bin', 'BitXor', ('load', d_arg, ()), ('load', s_t, ()))
+    else:
+        if not (st.get('k') == 'assign' and st['rv'].get('k') == 'binop' and st['rv'].get('op') == 'BitXor' and st['place']['p'] == ['deref']):
+            return None
+        v = a.val_rv(st['rv'], ssite)
+        pth_d, nx = _payload_path(a.val_local(st['place']['l'], ssite))
     lay = _iter_layout(a, nx) if nx is not None else None
     if lay is None or len(lay[1]) != 2:
         return None
@@ -788,7 +800,8 @@ def _nonce_tail_xor_form(rep, facts, a, rt, base_idx, seq_idx, rule):
     cv = a.val_local(sl, ssite)
     # the XOR store was resolved above to the nonce tail (the element handed out by iter_mut); the coarse root analysis lists it
     # for every buffer the zipped iterator borrows, the counter array is only borrowed shared (iter)
-    cw = [w for w in cv[3] if not (w[2][0] == 'store?' and w[0] == ssite)] if cv[0] == 'mem' and not cv[4] else []
+    cw = [w for w in cv[3] if not (w[0] == ssite and (w[2][0] == 'store?' or (via_call and w[2][0] in ('call', 'call?') and w[2][1] == 'core::ops::BitXorAssign::bitxor_assign')))] \
+        if cv[0] == 'mem' and not cv[4] else []
     one = len(cw) == 1 and cw[0][2][0] == 'call' and cw[0][3] and not cw[0][1]
     rep.check(one, rule, fn, 'single-writer', pp(cv)[:200], 'exactly one writer of the whole counter array (the big-endian encoder), on every path', where(a, ssite))
     if not one:
